@@ -138,6 +138,7 @@ func (q *question) PipelineSend(ctx context.Context, transform []capnp.PipelineO
 		q.c.mu.Lock()
 		q.c.questions[q2.id] = nil
 		q.c.questionID.remove(uint32(q2.id))
+		q.c.unlockSender()
 		q.c.mu.Unlock()
 		return capnp.ErrorAnswer(s.Method, errorf("create message: %v", err)), func() {}
 	}
